@@ -452,11 +452,12 @@ def _local(case, work):
             return Outcome(fail('post-partial', f'listed object {name!r} does not exist'), classes, nontrivial)
         objects[name] = adapter.download(name)
     # completeness on disk: an object written by the interrupted run equals a full intended payload
-    pre_names = None
+    import hashlib
+    pre_state = next((e['pre_state'] for e in log if 'pre_state' in e), {})
     full = set(intents)
     for name, body in objects.items():
-        if name == 'config':
-            continue
+        if name == 'config' or pre_state.get(name) == hashlib.sha256(body).hexdigest():
+            continue            # untouched since before the interrupted command
         if any(body != i and i.startswith(body) for i in full) and body not in full:
             return Outcome(fail('post-partial', f'object {name!r} is a strict prefix ({len(body)} bytes) of a payload that was being written'),
                            classes, nontrivial)
